@@ -59,3 +59,23 @@ Theorem C19_digits_of_powers_of_ten : forall k delta, 1 <= k -> -1 <= delta <= 1
   ndigits (10 ^ k + delta) = expected_digits_pow10 k delta.
 Proof. exact expected_digits_pow10_sound. Qed.
 Print Assumptions C19_digits_of_powers_of_ten.
+
+(* Context.Reduce on every finite operand inside the limits: (d, f) is the ONE rounding of x to the context
+   (op_post: correctly rounded value, flags, fit - C01/C02/C07); the returned d' is d with the trailing zeros
+   of the ROUNDED coefficient stripped ("9.95 -> 10 at two digits" comes back as 1E+1), the sign kept, zero as
+   0E+0 with that sign, an overflow to Infinity untouched; n is exactly the number of zeros removed. *)
+From Apd Require Import Model.Context Proofs.Core Proofs.OpsProofs Proofs.CtxReduce.
+Theorem C19_context_reduce est : est_in_range est -> forall c x, ctx_ok c -> finite_nn x -> exact_in_limits c (exact_of_dec x) ->
+  exists d f d' n, ctx_reduce est c x = Ok (finish c d' f, n) /\ op_post c (exact_of_dec x) d f /\
+    (form_of d = Infinite -> d' = d /\ n = 0) /\
+    (form_of d = Finite -> coeff d = 0 -> d' = mkDec Finite (neg d) 0 0 /\ n = 0) /\
+    (form_of d = Finite -> 0 < coeff d ->
+       form_of d' = Finite /\ neg d' = neg d /\ 0 <= n /\ exp d' = exp d + n /\ coeff d = coeff d' * 10 ^ n /\
+       0 < coeff d' /\ coeff d' mod 10 <> 0 /\ fits c d' = true).
+Proof. exact (ctx_reduce_correct est). Qed.
+Print Assumptions C19_context_reduce.
+
+Example C19_context_reduce_carry :   (* 9.95 at Precision 2, half_up: rounds to 10, reduces to 1E+1, one zero removed *)
+  ctx_reduce go_est (mkCtx 2 9 (-9) c0 RHalfUp) (mkDec Finite false (-2) 995)
+  = Ok (finish (mkCtx 2 9 (-9) c0 RHalfUp) (mkDec Finite false 1 1) (fInexact ||| fRounded), 1).
+Proof. vm_compute. reflexivity. Qed.
